@@ -533,6 +533,13 @@ impl Ctx {
         self.known.iter().find(|k| k.sig == sig || k.sig == f.class)
     }
 
+    /// Has a KNOWN-FINDING line with this signature already been printed by this process?
+    /// (`line` is a KNOWN-FINDING line of the chk child, which ends in `[sig=...]`)
+    pub fn known_already_printed(&self, line: &str) -> bool {
+        let s = self.state.lock().unwrap();
+        s.known_hits.keys().any(|sig| line.ends_with(&format!("[sig={}]", sig)))
+    }
+
     /// Is this failure listed as a known finding?  (used by generators that want to
     /// exclude a confirmed finding by construction and keep searching)
     pub fn is_known(&self, f: &Fail) -> bool {
